@@ -5,6 +5,7 @@ let suites : (string * (Sexp.t -> Sexp.t -> Verdict.t)) list = [
   "subsh", S_sub.run `C11;
   "tm", S_sub.run_tm;
   "ret", S_ret.run;
+  "queue", S_queue.run;
 ]
 
 let () =
